@@ -468,6 +468,9 @@ pub fn diff_scene(a: &Scene, b: &Scene, with_bounds: bool, with_offsets: bool) -
     if a.format_name != b.format_name {
         d.add(format!("root.formatName: expected {:?}, got {:?}", a.format_name, b.format_name));
     }
+    if a.version != b.version {
+        d.add(format!("root.version: expected {:?}, got {:?}", a.version, b.version));
+    }
     d.os("root.e57LibraryVersion", &a.library_version, &b.library_version);
     d.os("root.coordinateMetadata", &a.coordinate_metadata, &b.coordinate_metadata);
     d.dt("root.creationDateTime", &a.creation, &b.creation);
